@@ -41,8 +41,11 @@ class C16(E2ECheck):
     def strategy(self, tier):
         from ..units import deferq
         return gen.weighted(
-            (2, deferq.histories().map(lambda h: {'kind': 'hist', 'h': h})),
-            (1, gen.e2e_cases(self.profile).map(
+            (3, deferq.histories().map(lambda h: {'kind': 'hist', 'h': h})),
+            # more parts pending at once (the default window is 10 chunks)
+            (1, deferq.histories(64, 10, 3).map(
+                lambda h: {'kind': 'hist', 'h': h})),
+            (2, gen.e2e_cases(self.profile).map(
                 lambda c: dict(c, kind='e2e'))))
 
     def execute(self, case):
